@@ -32,6 +32,49 @@ type mapAccess struct {
 	Val   ssa.Value
 }
 
+// helperRegistrations: registry writes that fn performs through a helper it calls statically — the helper's map updates
+// whose key and value are the helper's own parameters, re-expressed at the call site (In = the call, Key/Val = the
+// arguments). A helper that writes anything else into the registry is left to the rules that look at every writer.
+func helperRegistrations(fn *ssa.Function, acc []mapAccess) []mapAccess {
+	var out []mapAccess
+	for _, c := range an.Calls(fn, false) {
+		h := c.Common().StaticCallee()
+		if h == nil || h == fn {
+			continue
+		}
+		if _, isGo := c.(*ssa.Go); isGo {
+			continue
+		}
+		if _, isDefer := c.(*ssa.Defer); isDefer {
+			continue
+		}
+		args := c.Common().Args
+		argOf := func(v ssa.Value) ssa.Value {
+			prm, ok := v.(*ssa.Parameter)
+			if !ok {
+				return nil
+			}
+			for i, hp := range h.Params {
+				if hp == prm && i < len(args) {
+					return args[i]
+				}
+			}
+			return nil
+		}
+		for _, a := range acc {
+			if a.Fn != h || a.Kind != "update" {
+				continue
+			}
+			k, v := argOf(a.Key), argOf(a.Val)
+			if k == nil || v == nil {
+				continue
+			}
+			out = append(out, mapAccess{In: c, Fn: fn, Field: a.Field, Kind: "update", Key: k, Val: v})
+		}
+	}
+	return out
+}
+
 func poolMapAccesses(p *an.Prog, fields ...string) []mapAccess {
 	want := map[string]bool{}
 	for _, f := range fields {
@@ -280,7 +323,7 @@ func runC09(p *an.Prog, r *an.Run, tier string) {
 			}
 		}
 		nUpd := 0
-		for _, a := range acc {
+		for _, a := range append(append([]mapAccess{}, acc...), helperRegistrations(conn, acc)...) {
 			if a.Fn != conn || a.Kind != "update" {
 				continue
 			}
@@ -308,7 +351,16 @@ func runC09(p *an.Prog, r *an.Run, tier string) {
 	// every successful host connect (re)registers the calling connection: a conditional registration keeps an older
 	// connection as "the" connection of the host
 	if svcCall != nil {
+		viaHelper := map[ssa.Instruction]bool{}
+		for _, a := range helperRegistrations(conn, acc) {
+			if a.Field == "remoteHosts" {
+				viaHelper[a.In] = true
+			}
+		}
 		isReg := func(in ssa.Instruction) bool {
+			if viaHelper[in] {
+				return true
+			}
 			mu, ok := in.(*ssa.MapUpdate)
 			return ok && memMapField(mu.Map) == "remoteHosts"
 		}
